@@ -1,6 +1,7 @@
 import StrumModel.Protocol
 import StrumModel.Overlap
 import StrumModel.Display
+import StrumModel.Iter
 /-
 Dispatch of `op` lines to the model. One answer line per op.
 -/
@@ -61,6 +62,62 @@ def showParseBack (d : EnumDef) (o : Except NameErr ShowOut) : String :=
     | .ok _ => "err"
   | .ok .panic => "PANIC"
   | .ok (.interp _ _) => "INTERP"
+
+def showItem (d : EnumDef) (i : Option Nat) : String :=
+  match i with
+  | none => "none"
+  | some i =>
+    match (iterTable d)[i]? with
+    | none => "bad-index"
+    | some (k, p) => String.intercalate ":" (encodeStr k :: p.map showFieldInit)
+
+def parseIterTok (t : String) : Option (String × Nat × Nat) :=
+  match t.splitOn ":" with
+  | [name, slot] => slot.toNat?.map (fun s => (name, s, 0))
+  | [name, slot, n] => do pure (name, (← slot.toNat?), (← n.toNat?))
+  | _ => none
+
+/-- run a history of iterator operations; clones are appended as new slots -/
+def runIterHistory (d : EnumDef) (m : Mode) : List IterState → List String → Option (List String)
+  | _, [] => some []
+  | slots, t :: ts =>
+    let N := (iterTable d).length
+    match parseIterTok t with
+    | none => some ["bad-tok"]
+    | some (name, slot, n) =>
+      let stepWith (op : IterOp) (render : IterOut → String) : Option (List String) :=
+        match iterStep m N slots op with
+        | none => none
+        | some (slots', o) => (runIterHistory d m slots' ts).map (render o :: ·)
+      let renderOut : IterOut → String := fun o =>
+        match o with
+        | .item i => showItem d i
+        | .len k => "len=" ++ toString k
+        | .cloned => "cloned"
+      match name with
+      | "next" => stepWith (.next slot) renderOut
+      | "back" => stepWith (.nextBack slot) renderOut
+      | "nth" => stepWith (.nth slot n) renderOut
+      | "nthback" => stepWith (.nthBack slot n) renderOut
+      | "len" => stepWith (.len slot) renderOut
+      | "hint" => stepWith (.len slot) renderOut
+      | "clone" => stepWith (.clone slot) renderOut
+      | "skip" =>
+        -- `it.clone().skip(n).next()` = `nth(n)` on a copy
+        match slots[slot]? with
+        | none => some ["bad-slot"]
+        | some s => (runIterHistory d m slots ts).map (showItem d (nth N s n).2 :: ·)
+      | "stepby" =>
+        -- first three items of `it.clone().step_by(n)`: `next()`, then `nth(n - 1)` twice
+        match slots[slot]? with
+        | none => some ["bad-slot"]
+        | some s =>
+          let r1 := next N s
+          let r2 := nth N r1.1 (n - 1)
+          let r3 := nth N r2.1 (n - 1)
+          (runIterHistory d m slots ts).map
+            (String.intercalate "," [showItem d r1.2, showItem d r2.2, showItem d r3.2] :: ·)
+      | _ => some ["bad-tok"]
 
 def runOp (d : EnumDef) (args : List String) : String :=
   match args with
@@ -137,6 +194,24 @@ def runOp (d : EnumDef) (args : List String) : String :=
     match findVariant d k with
     | some v => encodeStr (preferredName d.style d.pfx v)
     | none => "bad-op"
+  | "iter" :: mode :: toks =>
+    let m := if mode = "release" then Mode.release else Mode.debug
+    match runIterHistory d m [iterInit] toks with
+    | none => "PANIC"
+    | some outs => String.intercalate " " outs
+  | ["collect"] =>
+    let N := (iterTable d).length
+    let l := collectFuel N (N + 2) iterInit
+    String.intercalate " " (("n=" ++ toString l.length) :: l.map (fun i => showItem d (some i)))
+  | ["rev"] =>
+    let N := (iterTable d).length
+    let l := collectBackFuel .debug N (N + 2) iterInit
+    String.intercalate " " (("n=" ++ toString l.length) :: l.map (fun i => showItem d (some i)))
+  | ["count"] => "count=" ++ toString (enumCount d)
+  | ["varray"] =>
+    match variantArray d with
+    | none => "CE:nonUnit"
+    | some l => String.intercalate " " (("n=" ++ toString l.length) :: l.map encodeStr)
   | ["nooverlap"] => if noOverlapB d then "1" else "0"
   | ["spellings", k] =>
     match decodeStr k with
